@@ -60,6 +60,31 @@ CHECKS['C20'] = dict(
     note='old-layout budgets with fixed concrete contents per content class; non-interactive runs',
     design='§4 C20')
 
+_ENGINE_NOTE = ('atom truth fixed by construction of the concrete transaction; TLC, the dump parser and the concretiser are trusted; '
+                'bounded to <= 2-3 rules per file and the listed condition shapes')
+CHECKS['C01'] = dict(
+    technique='TLA+ spec Engine.tla (three-valued conditions, globals, lets, first_match selection): TLC checks '
+              'NonMatchingIrrelevant / LaterRulesIrrelevant / LetIsLocal on every file x transaction of the bounded universe; every '
+              'state is concretised to .rules / CSV text and replayed through parse_merchants.match, get_all_rules+normalize_merchant '
+              'and the legacy CSV loop',
+    text='Exhaustive within bounds: every rule file of the universe against every transaction; the spec value is compared with three '
+         'real code paths on merchant, category, subcategory and winning rule.',
+    note=_ENGINE_NOTE, design='§4 C01')
+CHECKS['C02'] = dict(
+    technique='TLA+ spec Engine.tla (tag union, dynamic tags, TagOnlyNeutral in both modes) checked by TLC; every state replayed into '
+              'the real engine paths; every category-less rule is also deleted from the real file (metamorphic) and the '
+              'classification must not move',
+    text='Exhaustive within bounds in both rule modes; tag sets compared with the spec union on every path and tag-only rules shown '
+         'neutral on the real code.',
+    note=_ENGINE_NOTE, design='§4 C02')
+CHECKS['C09'] = dict(
+    technique='TLA+ spec Engine.tla MostSpecific + MC_Specific.tla (one rule shape per adjacent inversion of the lexicographic '
+              'ranking, all orders): TLC checks OrderIndependent / WinnerIsMaximal / TagsOrderIndependent; every state replayed into '
+              'parse_merchants(mode).match and get_all_rules(mode)+normalize_merchant',
+    text='Exhaustive within bounds over rule files whose rules differ in each ranking component, in every order, with ties; winner, '
+         'category, subcategory and subcategory-winner compared with the spec.',
+    note=_ENGINE_NOTE + '; literals are keyword-free so textual and structural constraint counting coincide', design='§4 C09')
+
 NOT_YET = {}
 
 
